@@ -48,7 +48,7 @@ def functions():
 def bounds(tier):
     q = tier == "quick"
     return {
-        "script_events": 5 if q else 7,
+        "script_events": 5 if q else 6,
         "sends": 2 if q else 3,
         "partitions_of_t": 2,
         "max_req_attempts": "SymInt in [1,3]",
@@ -86,14 +86,14 @@ def jobs(tier):
                             "batch_t": 0,
                             "codec": codec,
                             "api": api,
-                            "K": 5 if q else 7,
+                            "K": 5 if q else 6,
                             "sends": 2 if q else 3,
                             "faults": 2 if q else 3,
                             "max_attempts": 3,
                             "two_topics": True,
                             "cancel": True,
                             "stop": True,
-                            "variants": 2 if q else 3,
+                            "variants": 2,
                             "errcodes": 2,
                         }
                     )
